@@ -11,16 +11,16 @@ SV=/tmp/sv_$NAME
 git -C /repo worktree add -q --detach $SV HEAD || exit 2
 cd $SV
 PYTHONPATH=$SV /venv/bin/python $OUT/demo.py > $OUT/demo_clean.txt 2>&1; D0=$?
-if git apply $OUT/patch.diff 2> $OUT/apply_err.txt; then AP=0; else AP=1; fi
+if git apply $OUT/patch.diff 2> $OUT/apply_err.txt || git apply --3way $OUT/patch.diff 2>> $OUT/apply_err.txt; then AP=0; else AP=1; fi
 T=$(/venv/bin/python -m pytest -q -p no:cacheprovider 2>&1 | tail -1)
 PYTHONPATH=$SV /venv/bin/python $OUT/demo.py > $OUT/demo_patched.txt 2>&1; D1=$?
 cd /verif; git -C /repo worktree remove --force $SV
 # run our check against the patched /repo
 if [ $AP = 0 ]; then
   cp evidence/$ID.json /tmp/evidence_$ID.bak 2>/dev/null
-  git -C /repo apply $OUT/patch.diff
+  git -C /repo apply $OUT/patch.diff 2>/dev/null || git -C /repo apply --3way $OUT/patch.diff
   ./check $ID quick > $OUT/check_output.txt 2>&1; CK=$?
-  git -C /repo checkout -- .
+  git -C /repo reset -q --hard HEAD
   cp evidence/$ID.json $OUT/evidence_with_patch.json 2>/dev/null
   mv /tmp/evidence_$ID.bak evidence/$ID.json 2>/dev/null   # the committed evidence must come from the unchanged tree
 else CK=-1; fi
